@@ -208,7 +208,7 @@ Graph generateGraph(Rng &rng, const GraphParams &gp)
             f.units.push_back(u);
         }
         // components
-        long nIC = canImport ? (heavy ? rng.range(0, 1) : rng.range(0, 2)) : 0;
+        long nIC = canImport ? (heavy ? rng.range(0, 1) : gp.encapsulationHeavy ? rng.range(1, 3) : rng.range(0, 2)) : 0;
         long nLC = heavy ? 1 : rng.range(1, 3);
         if (i == 0 && canImport && nIC == 0 && nIU == 0) {
             nIC = 1;
@@ -242,6 +242,18 @@ Graph generateGraph(Rng &rng, const GraphParams &gp)
             bool imp = k >= nLC;
             if (!f.comps.empty() && rng.chance(2, 5)) {
                 c.parent = int(rng.below(f.comps.size()));
+            }
+            if (gp.encapsulationHeavy && imp && rng.chance(3, 4)) {
+                // below an imported component of this file, when there is one already
+                std::vector<int> importedSoFar;
+                for (size_t q = 0; q < f.comps.size(); ++q) {
+                    if (f.comps[q].imported) {
+                        importedSoFar.push_back(int(q));
+                    }
+                }
+                if (!importedSoFar.empty()) {
+                    c.parent = importedSoFar[rng.below(importedSoFar.size())];
+                }
             }
             if (imp) {
                 long j = rng.range(i + 1, nFiles - 1);
